@@ -4,5 +4,6 @@ CONSTANTS
   K = 5
   MaxSteps = 14
   SeedOnOpen = TRUE
+  SeedFromBucketMark = TRUE
   MetaKeepsMark = TRUE
 CHECK_DEADLOCK FALSE
